@@ -60,6 +60,12 @@ def run(prog, chk):
     # R02.4
     chk.ob('R02.4', m, m.ln, info['returns_res'], 'measure returns the outcome variable on every path', key='returns-outcome')
 
+    evaluator_measure_sites(prog, chk, R, m, 'R02.5')
+
+
+def evaluator_measure_sites(prog, chk, R, m, rule):
+    """R02.5 (run by C17 too, as part of R17.3): at every evaluator site the bit the simulator returned is what is recorded as the
+    measured qubit's last measurement — under that qubit's own index"""
     # ---- R02.5 evaluator agreement ------------------------------------------------------------
     last = [f['name'] for f in R.ev['fields'] if f['type'] == 'std::vector<int>' and 'ast' in f['name'].lower()]
     if len(last) != 1:
@@ -76,7 +82,7 @@ def run(prog, chk):
             # the result initialises one local
             decl = [d for d in g.nodes if d.kind == 'decl' and SX.strip(d.e.get('init')) is node.e]
             if not decl:
-                chk.ob('R02.5', f, node.ln, False, 'result of sim.measure(%s) is not bound to a local' % qt, key='bound:' + qt)
+                chk.ob(rule, f, node.ln, False, 'result of sim.measure(%s) is not bound to a local' % qt, key='bound:' + qt)
                 continue
             bid = decl[0].e['id']
             stores = [(n, l, r) for n, l, r, op in g.writes() if op == '=' and SX.is_node(SX.strip(l)) and SX.strip(l)['k'] == 'index'
@@ -94,14 +100,14 @@ def run(prog, chk):
                             avoid.append(e)
                 reach_ok = g.must_follow(node, avoid)
             no_rewrite = not any(w for w, l, r, op in g.writes() if SX.is_node(SX.strip(l)) and SX.strip(l).get('id') == bid)
-            chk.ob('R02.5', f, node.ln, st_ok and reach_ok and no_rewrite,
+            chk.ob(rule, f, node.ln, st_ok and reach_ok and no_rewrite,
                    'the bit returned by sim.measure(%s) is stored unchanged into %s[%s] on every normal path (range guards only)' % (qt, last, qt), key='store:' + _site(g, node, qt))
             # expression form: the returned Value carries the same bit
             rets = [n for n in g.nodes if n.kind == 'return' and node.id in g.reachable([n], forward=False) and g.dominates(node, n)]
             rets = [n for n in rets if SX.is_node(n.e.get('e')) and any(x['k'] == 'ref' and x.get('id') == bid for x in SX.walk(n.e['e']))]
             if f.ret.endswith('Value') and _expr_form(g, node):
                 okr = bool(rets) and all(any(x['k'] == 'ref' and x.get('kind') == 'enum' and x['name'].endswith('Type::Bit') for x in SX.walk(n.e['e'])) for n in rets)
-                chk.ob('R02.5', f, node.ln, okr, 'measure expression returns a Bit value holding the same bit', key='returns:' + _site(g, node, qt))
+                chk.ob(rule, f, node.ln, okr, 'measure expression returns a Bit value holding the same bit', key='returns:' + _site(g, node, qt))
     chk.count('evaluator measure sites', nsite, 3)
 
 
